@@ -536,12 +536,13 @@ theorem table_run_idempotent (c : Nat) (var : Str) (acts : List (Bool × Str)) (
 
 
 /-- The product's own `${<NAME>_DIR}` stands for its directory whatever characters the name holds (`c++`, `a.b`:
-the reference is matched literally; repair of D124).  Hypothesis: the upper-cased name does not start with `P`
-(a product `PRODUCT` spells `${PRODUCT_DIR}`, which the earlier step owns). -/
+the reference is matched literally; repair of D124).  Hypothesis: the reference does not itself spell a `${PRODUCT…`
+macro (a product called `product` writes `${PRODUCT_DIR}`, which the earlier step owns — with the same result). -/
 theorem name_dir_macro (p : PathAct.ProdInfo) (d tail : Str) (hd : p.dir = some d) (hne : d ≠ [])
-    (hd36 : 36 ∉ d) (ht : 36 ∉ tail) (hn36 : 36 ∉ p.name) (hhead : (PathAct.upper p.name).head? ≠ some 80) :
+    (hd36 : 36 ∉ d) (ht : 36 ∉ tail) (hn36 : 36 ∉ p.name)
+    (hP : PathAct.sPRODUCT.isPrefixOf (PathAct.upper p.name ++ Str.ofString "_DIR}" ++ tail) = false) :
     PathAct.expandMacros p (PathAct.mNameDir p.name ++ tail) = d ++ tail :=
-  PathAct.expandMacros_name_dir p d tail hd hne hd36 ht hn36 hhead
+  PathAct.expandMacros_name_dir p d tail hd hne hd36 ht hn36 hP
 
 /-- … and a reference to another product's variable is not this product's: concrete instance for `c++` vs `${C_DIR}`
 (the pinned pattern `\${C++_DIR}` matched it). -/
